@@ -9,4 +9,14 @@ export GOFLAGS=-mod=mod GOPROXY=off GOSUMDB=off GOTOOLCHAIN=local
 cp /repo/go.sum harness/go.sum
 mkdir -p harness/_bin
 ( cd harness && go build -tags verif -o _bin/harness . )
+# second tie: translate the Go sources and compile the equivalence proofs once (each check re-does this
+# incrementally against /repo's working tree; a failure here is reported by the checks, not by setup)
+python3 - <<'PY' || true
+import os, sys
+sys.path.insert(0, os.path.join(os.getcwd(), "lib"))
+import vcommon as vc
+for name in sorted(vc.TIES):
+    r = vc.translation_tie(name)
+    print("tie", name, "ok" if r["ok"] else "BROKEN: " + r["stage"] + " " + r["file"])
+PY
 echo setup ok
